@@ -43,9 +43,10 @@ impl Future for YieldOnce {
 
 #[derive(Clone)]
 struct Step {
-    kind: u8, // 0 sleep, 1 yield, 2 park (sleep_cycles(u64::MAX - d): must never come back)
+    kind: u8, // 0 sleep, 1 yield, 2 park (sleep_cycles(u64::MAX - d): must never come back), 3 nap2
     d: u64,
     emit: Option<u32>,
+    d2: u64, // nap2: `let t = sleep_cycles(d2); sleep_cycles(d).await; t.await` - a sleep created before it is awaited
 }
 
 fn run_tasks(v: &Value) -> Value {
@@ -61,7 +62,23 @@ fn run_tasks(v: &Value) -> Value {
     let done = Rc::new(RefCell::new(0usize));
     let parked = Rc::new(RefCell::new(0usize));
     let call_no = Rc::new(RefCell::new(0u64));
+    let disturb = v.get("disturb").and_then(|x| x.as_u64()).unwrap_or(0);
+    // bit 2: the OTHER driver is created first
+    let mut other_early = if disturb & 4 != 0 { Some(AsyncDriver::with_clock(clock0.wrapping_add(1000))) } else { None };
     let mut driver = AsyncDriver::with_clock(clock0);
+    // bit 0: a second, independent driver lives on the same thread and is run between the calls of the first one
+    let mut other = if disturb & 1 != 0 && other_early.is_none() {
+        Some(AsyncDriver::with_clock(clock0.wrapping_add(1000)))
+    } else {
+        other_early.take()
+    };
+    if let Some(o) = other.as_mut() {
+        o.spawn(async move {
+            loop {
+                sleep_cycles(5).await;
+            }
+        });
+    }
     let tasks = v.get("tasks").and_then(|t| t.as_array()).cloned().unwrap_or_default();
     let ntasks = tasks.len();
     for (tid, t) in tasks.iter().enumerate() {
@@ -75,10 +92,12 @@ fn run_tasks(v: &Value) -> Value {
                         kind: match s.get(0).and_then(|k| k.as_str()) {
                             Some("yield") => 1,
                             Some("park") => 2,
+                            Some("nap2") => 3,
                             _ => 0,
                         },
                         d: s.get(1).and_then(|x| x.as_u64()).unwrap_or(0),
                         emit: s.get(2).and_then(|x| x.as_u64()).map(|x| x as u32),
+                        d2: s.get(3).and_then(|x| x.as_u64()).unwrap_or(0),
                     })
                     .collect()
             })
@@ -100,6 +119,10 @@ fn run_tasks(v: &Value) -> Value {
                 } else if s.kind == 2 {
                     *parked.borrow_mut() += 1;
                     sleep_cycles(u64::MAX - s.d).await;
+                } else if s.kind == 3 {
+                    let later = sleep_cycles(s.d2);
+                    sleep_cycles(s.d).await;
+                    later.await;
                 } else {
                     sleep_cycles(s.d).await;
                 }
@@ -138,6 +161,13 @@ fn run_tasks(v: &Value) -> Value {
         }
         calls += 1;
         *call_no.borrow_mut() = calls;
+        if let Some(o) = other.as_mut() {
+            let _ = catch_unwind(AssertUnwindSafe(|| o.run_for(3)));
+        }
+        if disturb & 2 != 0 {
+            // bit 1: host code blocks on a small future between two calls
+            let _ = catch_unwind(AssertUnwindSafe(|| sc62015_core::async_driver::block_on(async { sleep_cycles(2).await })));
+        }
         let r = catch_unwind(AssertUnwindSafe(|| driver.run_for(cur)));
         let r = match r {
             Ok(r) => r,
